@@ -117,7 +117,7 @@ def r10_4(chk, P):
     n = 0
     bad = {}
     for (e, fl, v, env) in k2.ret_value_classes(A):
-        if v is None or not (v.lo <= 0 <= v.hi):
+        if v is None or not (v.lo <= 0 <= v.hi) or 0 in v.ne:
             continue
         n += 1
         if not {'setup', 'reset'} <= fl:
